@@ -69,16 +69,18 @@ Definition dc_lt (a b : disp_cand) : bool :=
   else if Nat.ltb (dc_literal b) (dc_literal a) then false
   else Nat.ltb (dc_nondef a) (dc_nondef b).
 
-Definition detect_dispatcher (path : str) (wss : list service) : option (service * str) :=
-  let cands := flat_map (fun w =>
+Definition dispatcher_cands (path : str) (wss : list service) : list disp_cand :=
+  flat_map (fun w =>
       let pe := path_expression (s_root w) in
       match jsr_match (pe_toks pe) path with
       | Some (caps, fin) =>
           [{| dc_ws := w; dc_final := fin; dc_matches := S (S (List.length caps));
               dc_literal := pe_literal pe; dc_nondef := pe_vars pe |}]
       | None => []
-      end) wss in
-  match sort_desc dc_lt cands with
+      end) wss.
+
+Definition detect_dispatcher (path : str) (wss : list service) : option (service * str) :=
+  match sort_desc dc_lt (dispatcher_cands path wss) with
   | c :: _ => Some (dc_ws c, dc_final c)
   | [] => None
   end.
